@@ -74,9 +74,15 @@ func Placeholder(h *absint.Hole) string {
 			if len(base) > 0 {
 				base = base[len(base)-1:]
 			}
-		case strings.HasPrefix(t, "trunc-"):
+		case strings.HasPrefix(t, "trunc-"), t == "trunc", t == "floor":
 			if i := strings.IndexByte(base, '.'); i >= 0 {
 				base = base[:i]
+			}
+		case t == "ceil", t == "round":
+			if i := strings.IndexByte(base, '.'); i >= 0 {
+				var n int
+				fmt.Sscanf(base[:i], "%d", &n)
+				base = fmt.Sprintf("%d", n+1000000) // a distinct integer stand-in for the rounded-up value
 			}
 		case t == "fmt:%f":
 			if !strings.Contains(base, ".") {
